@@ -7,7 +7,7 @@ proofs : lean/PyAbel/Props/C16.lean (synthesis: interpolation nodes, linear fall
 K      : rbasex_transform(...)[0] for every `out` vs the Lean synthesis of the *returned* distributions (this is the
          property's first clause, evaluated by the model)
 S      : identical distributions for all out values and None; unfold = mirror-unfolding of fold; zero-weight pixels; invalid
-         radii flagged and zero; abel.Transform(method='rbasex') pass-through; an independent numpy synthesis
+         radii flagged and zero; abel.Transform(method='rbasex') pass-through; an independent numpy synthesis; order 0 ignores `odd`
 """
 import json
 
